@@ -61,7 +61,7 @@ def _case(draw, unit):
             'low': low, 'highs': his, 'zero_valued': [int(draw(st.integers(0, 3)) == 0) for _ in range(J + 1)],
             'reused': draw(st.integers(0, 2)) == 0,
             'layout': list(draw(st.sampled_from(LAYOUTS))) if draw(st.integers(0, 2)) == 0 else [2, -1], 'filt_form': draw(st.sampled_from(['names', 'names', 'names', 'tuples'])),
-            'ctx': draw(st.sampled_from(core.GRAD_CTXS)),
+            'ctx': draw(st.sampled_from(core.GRAD_CTXS)), 'other_precision_first': draw(st.integers(0, 3)) == 0,
             'rx': draw(core.recipe_strategy()), 'rp': draw(core.recipe_strategy()),
             'k': draw(st.integers(0, 10**6))}
 
@@ -157,6 +157,10 @@ def _run_case(case):
                 inv = fresh
         else:
             inv = DTCWTInverse(biort=ib, qshift=iq, o_dim=o_, ri_dim=ri_)
+    if case.get('other_precision_first'):
+        r.label('after_other_precision_call')
+        dwtu.other_precision_call(inv, None, tdt, lambda dt: (
+            torch.ones(1, 1, 8, 8, dtype=dt), [lay(torch.ones(1, 1, 6, 4, 4, 2, dtype=dt))]))
     total = dwtu.pyr_total(lo_shape, hi_shapes)
     He, We = H + H % 2, W + W % 2
 
